@@ -98,8 +98,11 @@ public:
     void shutdown(boost::asio::ip::tcp::socket::shutdown_type, boost::system::error_code & ec) override
     { life.push_back("shutdown"); if (log_life) ilog("csh"); ec = {}; }
     void close(boost::system::error_code & ec) override { life.push_back("close"); if (log_life) ilog("cx"); open = false; ec = {}; }
-    boost::asio::ip::tcp::endpoint local_endpoint(boost::system::error_code & ec) const override { ec = {}; return local_ep; }
-    boost::asio::ip::tcp::endpoint remote_endpoint(boost::system::error_code & ec) const override { ec = {}; return remote_ep; }
+    // like a real socket: a closed descriptor has no addresses
+    boost::asio::ip::tcp::endpoint local_endpoint(boost::system::error_code & ec) const override
+    { if (!open) { ec = boost::asio::error::bad_descriptor; return {}; } ec = {}; return local_ep; }
+    boost::asio::ip::tcp::endpoint remote_endpoint(boost::system::error_code & ec) const override
+    { if (!open) { ec = boost::asio::error::bad_descriptor; return {}; } ec = {}; return remote_ep; }
     boost::asio::ip::tcp::socket::executor_type get_executor() override { return ioc->get_executor(); }
     boost::asio::ip::tcp::socket & get_socket() override { throw std::logic_error("mem_socket::get_socket"); }
     boost::asio::ip::tcp::socket detach() override { throw std::logic_error("mem_socket::detach"); }
